@@ -23,9 +23,12 @@ Definition branch_valid (b : block) : bool :=
    4 = 3 where the block does not extend the current tip and the refusal is the stake-signature check of checkBlock,
        which judges a side-branch block against the main chain's stake state (open finding R14) *)
 Definition c04_pf (n0 n1 : node) (b : block) (now : N) (o : obs) : N :=
+  (* a member of a batch other than the last: the tip observed after the whole batch says nothing about the store at
+     this point; what must hold is that a branch-valid block whose parent was stored when the post-processor (lowest
+     height first) reached it is retrievable after the batch *)
   let c := first_fail [
-    (2, match get_block n1 (ob_top o) with Some t => b_cd t =? ob_top_cd o | None => false end);
-    (1, max_cd n1 <=? ob_top_cd o);
+    (2, ob_skip o || match get_block n1 (ob_top o) with Some t => b_cd t =? ob_top_cd o | None => false end);
+    (1, ob_skip o || (max_cd n1 <=? ob_top_cd o));
     (3, negb (branch_valid b && negb (ob_acc o) &&
               match get_block n0 (prev_hash b) with Some _ => true | None => false end))] in
   if (c =? 3) && negb (prev_hash b =? top n0) &&
